@@ -19,7 +19,14 @@ def lib_name(module, func_expr):
     seen += 1
   if head in module.imports:
     parts = module.imports[head].split('.') + parts[1:]
+  elif head in GLOBAL_IMPORTS and head not in getattr(module, 'assigns', {}) and len(GLOBAL_IMPORTS[head]) == 1:
+    # a name that came with code inlined from another module of the package, where it is an import (every module of the
+    # package that imports this name means the same thing by it)
+    parts = next(iter(GLOBAL_IMPORTS[head])).split('.') + parts[1:]
   return '.'.join(parts)
+
+
+GLOBAL_IMPORTS = {}      # imported local name -> set of dotted targets over all modules of the package (filled by core.Repo)
 
 
 def calls_in(node):
@@ -149,6 +156,7 @@ def unknown_ops(expr):
 # names of the functions, methods and classes defined in the tree under analysis (set by core.Repo): an attribute of
 # that name is code of the package, not a library operation
 REPO_DEFINED = set()
+CLASS_VALUE_ATTRS = set()      # class-level bindings that are not defs (collaborators, tables): filled by core.Repo
 
 
 def aliens(expr, vocabulary=(), fields=None):
@@ -173,6 +181,12 @@ def aliens(expr, vocabulary=(), fields=None):
     if fields is not None and isinstance(sub, ast.Attribute) and isinstance(sub.value, ast.Name) and sub.value.id == 'self' and sub.attr not in fields \
         and ('self.' + sub.attr) not in out:
       out.append('self.' + sub.attr)
+  # a call through a class-level collaborator that was not specialised away (self._estimator(...) with _estimator = staticmethod(sm.OLS)
+  # in a class whose attributes can be re-bound): what is called is not known
+  for sub in ast.walk(expr):
+    if isinstance(sub, ast.Call) and isinstance(sub.func, ast.Attribute) and isinstance(sub.func.value, ast.Name) and sub.func.value.id in ('self', 'cls') \
+        and sub.func.attr in CLASS_VALUE_ATTRS and ('self.%s()' % sub.func.attr) not in out:
+      out.append('self.%s()' % sub.func.attr)
   # operations the checker has never been validated against (x.size for len(x), x.std(ddof=2) for np.std(x, ddof=2), ...):
   # the term may well be an equivalent spelling, so it is not a closed term
   for k in unknown_ops(expr):
@@ -275,6 +289,13 @@ def order_blind(expr, name):
       if isinstance(p_, (ast.GeneratorExp, ast.ListComp, ast.SetComp)) and isinstance(par.get(id(p_)), ast.Call) \
           and norm(par[id(p_)].func) in ('all', 'any', 'set', 'frozenset', 'sum', 'len'):
         blind = True
+      # [f(g) for g in name if c(g)] used only for its truth value (is anything left?): the same for every order
+      if isinstance(p_, (ast.GeneratorExp, ast.ListComp, ast.SetComp)) and any(cur is g_ and g_.iter is x_ for g_ in p_.generators):
+        up_ = par.get(id(p_))
+        while isinstance(up_, (ast.UnaryOp, ast.BoolOp)) and (not isinstance(up_, ast.UnaryOp) or isinstance(up_.op, ast.Not)):
+          up_ = par.get(id(up_))
+        if up_ is None and isinstance(p_, (ast.ListComp, ast.SetComp)):
+          blind = True
       cur = p_
     if not blind:
       return False
@@ -454,8 +475,20 @@ def class_delegations(repo, cls):
       continue
     out.append('the class decorator @%s' % t)
   for b in cls.node.bases:
-    if norm(b) not in ('object',):
-      out.append('the base class %s' % norm(b))
+    if norm(b) in ('object',):
+      continue
+    r = None
+    if repo is not None and hasattr(repo, 'resolve_dotted'):
+      try:
+        r = repo.resolve_dotted(cls.module, dotted(b))
+      except Exception:
+        r = None
+    if r and r[0] == 'class' and getattr(repo, 'inherited', None) is not None:
+      # a base class of the package: its members were merged into the class at load time; what can still hide there is
+      # what ITS decorators / bases supply
+      out += class_delegations(repo, r[1])
+      continue
+    out.append('the base class %s' % norm(b))
   for k in cls.node.keywords:
     out.append('the class keyword %s' % (k.arg or '**'))
   for st in cls.node.body:
